@@ -702,6 +702,19 @@ func vfBaseline(rp vfSink, op *vfOp) ([]string, bool) {
 		if out.openTx || out.inUse != 0 || out.waited {
 			return bad(fmt.Sprintf("transaction left open, InUse=%d", out.inUse))
 		}
+		// (e) in a transactional operation every data-modifying statement must run inside the transaction:
+		// a write issued on the pool auto-commits and survives a later rollback (partial write).
+		if op.tx && i == 0 {
+			for _, e := range out.events {
+				if (e.Op == "EXEC" || e.Op == "STMT-EXEC") && !e.InTx {
+					u := strings.ToUpper(strings.TrimSpace(e.SQL))
+					if strings.HasPrefix(u, "INSERT") || strings.HasPrefix(u, "UPDATE") || strings.HasPrefix(u, "DELETE") || strings.HasPrefix(u, "REPLACE") {
+						rp.Violation(op.name+":write-outside-tx@"+vfSig(e), fmt.Sprintf("%s: statement `%s` modifies data outside the operation's transaction (auto-committed; not undone by a rollback); log: %s",
+							op.name, vfSig(e), strings.Join(vfLog(out.events), " | ")), vfDetail{Op: op.name, Kind: "none", Timeout: to.name, Events: vfLog(out.events)})
+					}
+				}
+			}
+		}
 		keys := vfKeys(out.statements)
 		if i == 0 {
 			free = keys
